@@ -164,12 +164,33 @@ func setLeaf(in *absint.Interp, v absint.Value, path string, nv absint.Value) {
 		if p, ok := cur.(*absint.Ptr); ok {
 			cur = p.To.V
 		}
-		st := cur.(*absint.Struct)
-		if i == len(parts)-1 {
-			st.F[part].V = nv
+		name, idx := part, -1
+		if j := strings.Index(part, "["); j >= 0 {
+			name = part[:j]
+			idx, _ = strconv.Atoi(strings.TrimSuffix(part[j+1:], "]"))
+		}
+		st, ok := cur.(*absint.Struct)
+		if !ok || st.F[name] == nil {
+			panic(absint.Unsupported{Why: fmt.Sprintf("path %s: no field %s", path, name)})
+		}
+		last := i == len(parts)-1
+		if idx < 0 {
+			if last {
+				st.F[name].V = nv
+				return
+			}
+			cur = st.F[name].V
+			continue
+		}
+		arr, ok := st.F[name].V.(*absint.Array)
+		if !ok || idx >= len(arr.E) {
+			panic(absint.Unsupported{Why: fmt.Sprintf("path %s: not an array", path)})
+		}
+		if last {
+			arr.E[idx].V = nv
 			return
 		}
-		cur = st.F[part].V
+		cur = arr.E[idx].V
 	}
 }
 
